@@ -24,12 +24,13 @@ type Spec struct {
 	Chain   string
 	Collide bool // offer colliding bridger / external addresses and out-of-bounds stakes
 	Rewards bool // offer redelegate / withdraw-reward / edit-bridger
+	Objects bool // batches and outgoing bridge calls as objects to be confirmed, a late-joining oracle (o3), confirms by o1 only
 	Focus   bool // narrowed alphabet (o2's life cycle only: blocks, removal, top-up, unbond; o1 confirms) for deeper histories
 	w       *world.World
 	os      []scen.Oracle // o1 (big stake), o2 (to be removed), o3 (approved later)
 }
 
-func (s *Spec) Name() string { return fmt.Sprintf("c13/%s/collide=%v/rewards=%v/focus=%v", s.Chain, s.Collide, s.Rewards, s.Focus) }
+func (s *Spec) Name() string { return fmt.Sprintf("c13/%s/collide=%v/rewards=%v/focus=%v/objects=%v", s.Chain, s.Collide, s.Rewards, s.Focus, s.Objects) }
 
 // Model: what each oracle transferred net of penalties paid, and how often it was paid out.
 type Model struct {
@@ -92,6 +93,9 @@ func (s *Spec) Init() *explore.State {
 	w.MustDeliver(ctx, scen.BondMsg(s.Chain, s.os[0], w.Vals[0].ValAddr(), world.FX(40000)))
 	w.MustDeliver(ctx, scen.BondMsg(s.Chain, s.os[1], w.Vals[0].ValAddr(), world.FX(10000)))
 	scen.SetParams(w, ctx, s.Chain, func(p *cctypes.Params) { p.SignedWindow = window })
+	if s.Objects {
+		scen.Observe(w, ctx, s.Chain, s.os[:2], scen.BridgeTokenClaim(s.Chain, 1, 100, scen.ExtAddr(s.Chain, s.Chain+"-fx-token"), "Function X", "FX", 18, ""))
+	}
 	m := &Model{Staked: map[string]string{"o1": world.FX(40000).String(), "o2": world.FX(10000).String()}, Paid: map[string]int{}, Removed: map[string]bool{}, RemovedAt: map[string]int64{}, Due: map[string]bool{}}
 	return &explore.State{W: w, Ctx: ctx, Model: m}
 }
@@ -139,6 +143,9 @@ func (s *Spec) Ops(st *explore.State) []explore.Op {
 	thr := k.GetOracleDelegateThreshold(ctx).Amount
 	max := thr.MulRaw(k.GetOracleDelegateMultiple(ctx))
 
+	if s.Objects {
+		ops = append(ops, s.objectOps(st)...)
+	}
 	// governance list updates
 	if !k.IsProposalOracle(ctx, o3.Acct.Bech()) && !s.Focus {
 		ops = append(ops, explore.Op{Name: "ApproveO3", Run: func(c *explore.State) {
@@ -150,7 +157,7 @@ func (s *Spec) Ops(st *explore.State) []explore.Op {
 			c.Accepted, c.Outcome = r.OK(), map[bool]string{true: "ok", false: "rejected"}[r.OK()]
 		}})
 	}
-	if k.IsProposalOracle(ctx, o2.Acct.Bech()) {
+	if k.IsProposalOracle(ctx, o2.Acct.Bech()) && !s.Objects {
 		ops = append(ops, explore.Op{Name: "RemoveO2", Run: func(c *explore.State) {
 			list := []scen.Oracle{o1}
 			if k.IsProposalOracle(c.Ctx, o3.Acct.Bech()) {
@@ -182,7 +189,7 @@ func (s *Spec) Ops(st *explore.State) []explore.Op {
 			continue
 		}
 		// top-up (pays pending penalty, re-onlines)
-		if orc.DelegateAmount.LT(max.QuoRaw(2)) && (o.Name != "o1" || !orc.Online) && !(s.Focus && o.Name != "o2") {
+		if orc.DelegateAmount.LT(max.QuoRaw(2)) && (o.Name != "o1" || !orc.Online) && !(s.Focus && o.Name != "o2") && !s.Objects {
 			ops = append(ops, explore.Op{Name: "AddDelegate(" + o.Name + ")", Run: func(c *explore.State) {
 				pre, _ := k.GetOracle(c.Ctx, o.Acct.Acc())
 				penalty := pre.GetSlashAmount(k.GetSlashFraction(c.Ctx))
@@ -228,7 +235,7 @@ func (s *Spec) Ops(st *explore.State) []explore.Op {
 			}
 		}
 		// confirm the latest oracle set
-		if osn := k.GetLatestOracleSet(ctx); osn != nil && orc.Online && k.GetOracleSetConfirm(ctx, osn.Nonce, o.Acct.Acc()) == nil && !(s.Focus && o.Name != "o1") {
+		if osn := k.GetLatestOracleSet(ctx); osn != nil && orc.Online && k.GetOracleSetConfirm(ctx, osn.Nonce, o.Acct.Acc()) == nil && !((s.Focus || s.Objects) && o.Name != "o1") {
 			bridger := orc.BridgerAddress
 			ops = append(ops, explore.Op{Name: "ConfirmOS(" + o.Name + ")", Run: func(c *explore.State) {
 				r := s.w.Deliver(c.Ctx, &cctypes.MsgOracleSetConfirm{ChainName: s.Chain, BridgerAddress: bridger, ExternalAddress: o.ExtAddr, Nonce: osn.Nonce,
@@ -241,7 +248,10 @@ func (s *Spec) Ops(st *explore.State) []explore.Op {
 			ops = append(ops, s.unbondOp(o))
 		}
 	}
-	ops = append(ops, s.blockOp("Block", 5*time.Second), s.blockOp("Block22d", 22*24*time.Hour))
+	ops = append(ops, s.blockOp("Block", 5*time.Second))
+	if !s.Objects {
+		ops = append(ops, s.blockOp("Block22d", 22*24*time.Hour))
+	}
 	return ops
 }
 
@@ -319,7 +329,61 @@ func (s *Spec) objects(ctx sdk.Context) []objInfo {
 		out = append(out, oi)
 		return false
 	})
+	for _, b := range k.GetOutgoingTxBatches(ctx) {
+		oi := objInfo{kind: fmt.Sprintf("batch#%d", b.BatchNonce), height: b.Block, confirmed: map[string]bool{}}
+		for _, o := range s.os {
+			oi.confirmed[o.Name] = k.GetBatchConfirm(ctx, b.TokenContract, b.BatchNonce, o.Acct.Acc()) != nil
+		}
+		out = append(out, oi)
+	}
+	k.IterateOutgoingBridgeCalls(ctx, func(c *cctypes.OutgoingBridgeCall) bool {
+		oi := objInfo{kind: fmt.Sprintf("bridge-call#%d", c.Nonce), height: c.BlockHeight, confirmed: map[string]bool{}}
+		for _, o := range s.os {
+			oi.confirmed[o.Name] = k.HasBridgeCallConfirm(ctx, c.Nonce, o.Acct.Acc())
+		}
+		out = append(out, oi)
+		return false
+	})
 	return out
+}
+
+// objectOps: things to confirm other than oracle sets, and o1's confirmations of them.
+func (s *Spec) objectOps(st *explore.State) []explore.Op {
+	k := scen.Keeper(s.w, s.Chain)
+	ctx := st.Ctx
+	ch := s.Chain
+	u1 := s.w.A("u1")
+	o1 := s.os[0]
+	var ops []explore.Op
+	if scen.LastTxPoolID(s.w, ctx, ch) < 1 {
+		ops = append(ops, s.simple("SendExt", &cctypes.MsgSendToExternal{ChainName: ch, Sender: u1.Bech(), Dest: scen.ExtAddr(ch, "u1-ext"), Amount: sdk.NewInt64Coin("FX", 2), BridgeFee: sdk.NewInt64Coin("FX", 1)}))
+	}
+	if len(k.GetUnbatchedTransactions(ctx)) > 0 {
+		ops = append(ops, s.simple("RequestBatch", &cctypes.MsgRequestBatch{ChainName: ch, Sender: o1.Bridger.Bech(), Denom: "FX", MinimumFee: sdkmath.NewInt(1), FeeReceive: scen.ExtAddr(ch, "feercv"), BaseFee: sdkmath.ZeroInt()}))
+	}
+	if scen.LastBridgeCallID(s.w, ctx, ch) < 1 {
+		ops = append(ops, s.simple("BridgeCallOut", &cctypes.MsgBridgeCall{ChainName: ch, Sender: u1.Bech(), Refund: u1.Bech(), Coins: sdk.NewCoins(sdk.NewInt64Coin("FX", 2)), To: scen.ExtAddr(ch, "callee"), Data: "01", Value: sdkmath.ZeroInt()}))
+	}
+	if orc, ok := k.GetOracle(ctx, o1.Acct.Acc()); ok && orc.Online {
+		gid := k.GetGravityID(ctx)
+		for _, b := range k.GetOutgoingTxBatches(ctx) {
+			if k.GetBatchConfirm(ctx, b.TokenContract, b.BatchNonce, o1.Acct.Acc()) == nil {
+				b := b
+				ops = append(ops, s.simple("ConfirmBatch(o1)", &cctypes.MsgConfirmBatch{ChainName: ch, BridgerAddress: orc.BridgerAddress, ExternalAddress: o1.ExtAddr, Nonce: b.BatchNonce, TokenContract: b.TokenContract,
+					Signature: scen.Sign(ch, o1.ExtKey, scen.BatchCheckpoint(ch, gid, b))}))
+				break
+			}
+		}
+		k.IterateOutgoingBridgeCalls(ctx, func(c *cctypes.OutgoingBridgeCall) bool {
+			if !k.HasBridgeCallConfirm(ctx, c.Nonce, o1.Acct.Acc()) {
+				ops = append(ops, s.simple("ConfirmBC(o1)", &cctypes.MsgBridgeCallConfirm{ChainName: ch, BridgerAddress: orc.BridgerAddress, ExternalAddress: o1.ExtAddr, Nonce: c.Nonce,
+					Signature: scen.Sign(ch, o1.ExtKey, scen.BridgeCallCheckpoint(ch, gid, c))}))
+				return true
+			}
+			return false
+		})
+	}
+	return ops
 }
 
 func (s *Spec) blockOp(name string, dt time.Duration) explore.Op {
@@ -468,12 +532,14 @@ func init() {
 					{Name: "eth-full", Spec: &Spec{Chain: "eth", Collide: true, Rewards: true}, Depth: 6, ShardDepth: 2},
 					{Name: "bsc-lifecycle", Spec: &Spec{Chain: "bsc"}, Depth: 8, ShardDepth: 2},
 					{Name: "eth-o2-life-cycle-deep", Spec: &Spec{Chain: "eth", Focus: true}, Depth: 13, ShardDepth: 2},
+					{Name: "eth-batches-and-bridge-calls-to-confirm", Spec: &Spec{Chain: "eth", Objects: true}, Depth: 10, ShardDepth: 2},
 				}
 			}
 			return []registry.Job{
 				{Name: "eth-lifecycle", Spec: &Spec{Chain: "eth"}, Depth: 7, ShardDepth: 2},
 				{Name: "eth-collide-rewards", Spec: &Spec{Chain: "eth", Collide: true, Rewards: true}, Depth: 5, ShardDepth: 2},
 				{Name: "eth-o2-life-cycle-deep", Spec: &Spec{Chain: "eth", Focus: true}, Depth: 9, ShardDepth: 2},
+				{Name: "eth-batches-and-bridge-calls-to-confirm", Spec: &Spec{Chain: "eth", Objects: true}, Depth: 8, ShardDepth: 2},
 			}
 		},
 	})
